@@ -58,7 +58,12 @@ func H_C17_pure_indexed() {
 	m := vNondetMap(vSpec{Depth: d, Width: 2, MapWidth: 1, Kinds: "mls", KeyAlpha: "a", KeyMin: 1, KeyMax: 1, StrAlpha: "xy", StrMin: 1, StrMax: 1, NoListInList: true})
 	mark := vMark(m)
 	sub := []string{"a:x", "!a:x", "a:*"}[vChoose(3)]
-	switch vChoose(3) {
+	switch vChoose(5) {
+	case 3: // un-indexed paths that end at a list whose members are filtered by the sub-keys
+		_, _ = Map(m).ValuesForPath("a.a", sub)
+	case 4:
+		_, _ = Map(m).ValuesForPath("a", sub)
+		_, _ = Map(m).ValuesForPath("*.a", sub)
 	case 0:
 		_, _ = Map(m).ValuesForPath("a[0].a", sub)
 	case 1:
@@ -142,7 +147,7 @@ func H_C17_footprint() {
 	m := vNondetMap(spec)
 	k := vNondetString(1, 1, "ab")
 	ms, _ := NewMapXmlSeq([]byte("<r " + k + "=\"1\"><!--c--><" + k + ">x</" + k + "><b/></r>"))
-	op := vChoose(9)
+	op := vChoose(12)
 	// options are fixed before the concurrent phase; both escaping modes are covered
 	switch vChoose(3) {
 	case 1:
@@ -173,6 +178,13 @@ func H_C17_footprint() {
 		case 7:
 			_ = Map(m).LeafNodes()
 			_, _ = Map(m).Copy()
+		case 9: // reader forms over a reader that is not an io.ByteReader
+			_, _ = NewMapXmlReader(vNondetSched([]byte("<r><" + k + ">x</" + k + "></r>")))
+		case 10:
+			_, _ = NewMapXmlSeqReader(vNondetSched([]byte("<r " + k + "=\"1\"><b/></r>")))
+		case 11:
+			_, _, _ = NewMapXmlReaderRaw(vNondetSched([]byte("<r><" + k + "/></r>")))
+			_, _ = NewMapJsonReader(vNondetSched([]byte("{\"" + k + "\":1}")))
 		default:
 			_, _ = ms.XmlIndent("", " ")
 		}
